@@ -571,3 +571,32 @@ def check_guard_classes(prog, rep, ieng, tk, ch, g, where):
         good, why = False, "the look-ahead helper consumes characters of the real iterator"
     rep.check(good != negated if good else False, "C05-R4", f"arm:{ch}/classes", where,
               f"guard of `{ch}`: quantifier reading iff the next non-whitespace character is `{{`", why)
+
+
+def parser_constants(prog):
+    """((terminal level fn, its summary), {True: spellings, False: spellings}) - the literals the parser maps to constants."""
+    term_fn = None
+    peng = terms.Engine(prog, inline=False)
+    for f in prog.lib_fns():
+        if f.path.startswith("preprocessing::parser::"):
+            fs = peng.summary(f)
+            if any(x.kind == "call" and x.is_call_to("mk_constant") for x in fs.sites):
+                term_fn = (f, fs)
+    table = {True: set(), False: set()}
+    if term_fn is None:
+        return None, table
+    f, fs = term_fn
+    # the return value is a decision tree over string comparisons
+    for r in fs.returns:
+        for y in [r[0]] + list(subterms(r[0])):
+            if y[0] == "ite":
+                strs = {z[3][1] for z in [y[1]] + list(subterms(y[1])) if z[0] == "bin" and z[1] == "==" and z[3][0] == "lit" and isinstance(z[3][1], str)}
+                strs |= {z[2][1] for z in [y[1]] + list(subterms(y[1])) if z[0] == "bin" and z[1] == "==" and z[2][0] == "lit" and isinstance(z[2][1], str)}
+                only_or = all(z[1] in ("==", "||") for z in [y[1]] + list(subterms(y[1])) if z[0] == "bin")
+                then = y[2]
+                mk = [z for z in [then] + list(subterms(then)) if z[0] == "call" and z[1].endswith("mk_constant")]
+                if strs and mk and only_or and then[0] == "ctor":
+                    val = mk[0][2][0]
+                    if val[0] == "lit" and isinstance(val[1], bool) and len(mk) == 1:
+                        table[val[1]] |= strs
+    return term_fn, table
